@@ -64,6 +64,17 @@ func uAlphabet(thorough bool) []uint64 {
 		add(uint64(1) << uint(i) * 3)
 		add(uint64(1) << uint(64-i) * 5)
 	}
+	// amounts with exactly 15 significant digits at every magnitude, also above 2^53 where a float
+	// cannot hold every integer (format-then-parse must still return them)
+	for _, d := range []uint64{123456789012345, 999999999999999, 553893176151156, 100000000000001, 922337203685477, 900719925474099, 314159265358979} {
+		p := uint64(1)
+		for k := 0; k <= 4; k++ {
+			if d <= math.MaxInt64/p {
+				add(d * p)
+			}
+			p *= 10
+		}
+	}
 	if thorough {
 		// a denser ladder: m * 2^k and m * 10^k for small odd m
 		for _, m := range []uint64{3, 5, 7, 9, 11, 13, 15, 255, 257, 1023, 65535} {
